@@ -1,0 +1,5 @@
+//go:build !verif
+
+package syntax
+
+const verifNoRewrites = false
